@@ -403,6 +403,16 @@ BAD_NAMES = {
 }
 
 
+# an alias and the type it stands for are ONE type: a requirement spelled through the alias is supplied by the provider of
+# the target type (C10/C02), and two providers spelled differently still supply the same type (C09) (repaired)
+ALIAS_KEYS = {
+    "k.go": 'package main\n\nimport "github.com/mazrean/kessoku"\n\ntype A struct{ S string }\ntype X = A\ntype Str = string\ntype B struct{ A *A }\n\nfunc NewA() *A { return &A{S: "a"} }\nfunc NewB(x *X, s Str, t string, e any, f interface{}) *B { return &B{A: x} }\n\nvar _ = kessoku.Inject[*B]("InitB", kessoku.Provide(NewA), kessoku.Provide(NewB))\n\nfunc main() {\n\tif InitB("s", 1).A.S != "a" {\n\t\tpanic("wrong result")\n\t}\n}\n',
+}
+ALIAS_DUP = {
+    "k.go": 'package main\n\nimport "github.com/mazrean/kessoku"\n\ntype A struct{ S string }\ntype X = A\ntype B struct{ A *A }\n\nfunc NewA() *A     { return &A{S: "a"} }\nfunc NewX() *X     { return &X{S: "x"} }\nfunc NewB(a *A) *B { return &B{A: a} }\n\nvar _ = kessoku.Inject[*B]("InitB", kessoku.Provide(NewA), kessoku.Provide(NewX), kessoku.Provide(NewB))\n\nfunc main() {}\n',
+}
+
+
 def write_pkg(mod, name, files):
     d = os.path.join(mod, name)
     os.makedirs(d, exist_ok=True)
@@ -468,6 +478,8 @@ def _stage(seed, tier, key="N-x"):
         pkgs.append(("tp%d" % i, files, targets, None, meta))
     pkgs.append(("dot_import", DOT_IMPORT, ["k.go"], None, dict(kind="identifiers of a dot-imported package in provider expressions", run=True)))
     pkgs.append(("bad_names", BAD_NAMES, ["k.go"], None, dict(kind="declared injector names that are not identifiers", run=True)))
+    pkgs.append(("alias_keys", ALIAS_KEYS, ["k.go"], None, dict(kind="alias-spelled requirements", run=True, expect_params={"k_band.go": {"InitB": ["Str", "any"]}})))
+    pkgs.append(("alias_dup", ALIAS_DUP, ["k.go"], None, dict(kind="two suppliers of one type, one spelled through an alias", expect_refused="multiple providers")))
     pkgs.append(("xset", XSET, ["k.go"], "KF-C10-1", dict(kind="known finding reproducer (Set of another package)", signature="no vet signature: the file compiles",
                                                        expect_params={"k_band.go": {"InitB": []}}, known_params={"k_band.go": {"InitB": ["*prov.A"]}})))
     for kid, (body, sig) in KNOWN.items():
